@@ -209,6 +209,9 @@ func c01worker(arg string) {
 					if janitor && (vi > 0 || vj > 0) {
 						continue
 					}
+					if r := replayReq; r != nil && r.Scenario != fmt.Sprintf("%d|%s|%s", ii, oa.label, ob.label) {
+						continue
+					}
 					st.Scenarios++
 					outcomes := map[string]bool{}
 					var res [2]string
@@ -276,7 +279,7 @@ func c01worker(arg string) {
 							states[fmt.Sprint(bi, ii, oa.label, ob.label, o, len(sched))] = struct{}{}
 						}
 					}
-					e.Explore(func() {
+					body := func() {
 						var inst any
 						if janitor {
 							n0 := vrt.ThreadCount()
@@ -306,7 +309,20 @@ func c01worker(arg string) {
 						}
 						wg.Wait() // a visible join, as user code would
 						safeCall(func() string { t.probe(inst); return "" })
-					})
+					}
+					if r := replayReq; r != nil {
+						r.Seen = true
+						x := vrt.Run(r.Choices, 20000, !thorough, body)
+						e.LastChoices = r.Choices
+						fmt.Printf("replay %s init=%s: %s\n  schedule (thread ids): %v\n  results: %v\n", t.name, init.name, scen, x.Schedule(), res)
+						e.Check(x)
+						vrt.Run(nil, 20000, true, func() {}) // let TSan flush reports of the torn-down execution
+						for _, rr := range newRaces() {
+							out.finding(wFinding{pairKey + "/data-race/" + rr[0], "ThreadSanitizer report:\n" + rr[1], nil, nil})
+						}
+						return
+					}
+					e.Explore(body)
 					// races reported while tearing the last execution down
 					for _, r := range newRaces() {
 						k := pairKey + "/data-race/" + r[0]
